@@ -401,6 +401,14 @@ class HtmlToAst(HTMLParser):
         super().feed(source)
         return self.struct.outmost
 
+    def parse_marked_section(self, i: int, report: int = 1) -> int:
+        try:
+            return super().parse_marked_section(i, report)
+        except AssertionError:
+            # an unknown marked section keyword, e.g. ``<![x]>``:
+            # treat it as a bogus comment, as python >= 3.13.4 does
+            return self.parse_bogus_comment(i)
+
     def handle_starttag(self, name: str, attr):
         """When found an opening tag then nest it onto the tree."""
         if name in self.void_elements:
